@@ -178,7 +178,7 @@ pub fn gen(tier: Tier, rng: &mut Rng64, out: &mut Out) {
             } else if !cs.is_empty() && choice == 2 {
                 // overlapping clause: drop or add a literal
                 let mut c: Vec<char> = rng.pick(&cs).chars().collect();
-                if c[0] != '~' { let i = rng.below(c.len() as u64) as usize; c[i] = *rng.pick(&['-', '0', '1']); }
+                if c[0] != '~' { let i = rng.below(c.len().min(n) as u64) as usize; c[i] = *rng.pick(&['-', '0', '1']); }
                 cs.push(c.into_iter().collect());
             } else {
                 cs.push(random_clause(rng, n, dens));
@@ -198,7 +198,8 @@ pub fn gen(tier: Tier, rng: &mut Rng64, out: &mut Out) {
     // mk_cnf asserts the range in mk_disjunctive_clause. mk_dnf has no such assertion: it goes through
     // mk_partial_valuation and returns a diagram with variables >= num_vars, and `or` on such operands may not
     // terminate (observed: `C10.dnf 2 -0-0/1-` allocates without bound), so mk_dnf is only run on lists that
-    // never reach `or`: all clauses agree below num_vars (they end in the duplicate check of line 20).
+    // never reach `or`: a single clause, or clauses that fix no variable below num_vars (they end in the
+    // duplicate check of line 20).
     let rounds = if thorough { 4000 } else { 400 };
     for _ in 0..rounds {
         let n = rng.below(4) as usize;
@@ -206,7 +207,9 @@ pub fn gen(tier: Tier, rng: &mut Rng64, out: &mut Out) {
         let dens = 2 + rng.below(6);
         let cs: Vec<String> = (0..len).map(|_| { let extra = rng.below(3) as usize; random_clause(rng, n + extra, dens) }).collect();
         run("C10.cnf", &[n.to_string(), cs.join("/")], out);
-        let base: String = if n == 0 { String::new() } else { random_clause(rng, n, dens) };
+        // (a list of >= 2 clauses is split, and `or`-ed with `false`, as soon as one clause fixes a variable
+        // below num_vars, so those lists fix none)
+        let base: String = if n == 0 { String::new() } else if len == 1 { random_clause(rng, n, dens) } else { "-".repeat(n) };
         let ext: Vec<String> = (0..len).map(|_| {
             let extra = rng.below(3) as usize;
             let tail: String = (0..extra).map(|_| *rng.pick(&['-', '-', '0', '1'])).collect();
